@@ -135,6 +135,8 @@ func init() {
 	register("C14", prop{
 		Run: func(t *testing.T, rec *core.Recorder) {
 			env, _ := sharedEnv(t)
+			// a parameter takes effect in the checker it belongs to and nowhere else
+			checkParamCellsIndependent(t, rec, "C14")
 			check(t, func(rt *rapid.T) {
 				defer env.Release()
 				pc := drawParamCase(rt, rec, env)
@@ -146,6 +148,10 @@ func init() {
 			var pc paramCase
 			if err := json.Unmarshal(raw, &pc); err != nil {
 				t.Fatal(err)
+			}
+			if pc.Kind == "" {
+				checkParamCellsIndependent(t, rec, "C14")
+				return
 			}
 			checkC14(t, rec, env, &pc)
 		},
